@@ -43,6 +43,12 @@ def run(ctx):
         ctx.add_tlc(f"EventFlow.tla {label}: ReturnAppliesDequeued, Monotone; AllDequeued, EventuallyApplied under fairness", r)
         if r.violated:
             ctx.violation("C05/spec-eventflow", f"EventFlow.tla violates {r.violated} ({cfg})", {"tlc": r.trace})
+    r = vlib.tlc_expect_ok("DrainOrder", "DrainOrder.cfg", workers=4)
+    ctx.add_tlc("DrainOrder.tla: cache messages drained before every event => a notification sent after load() returned is never dropped", r)
+    if r.violated:
+        ctx.violation("C05/spec-drainorder", f"DrainOrder.tla violates {r.violated}", {"tlc": r.trace})
+    r = vlib.tlc_expect_violation("DrainOrder", "DrainOrder_neg.cfg", "NoLostNotification", workers=2)
+    ctx.add_tlc("negative control: drain only when the select reported cache messages (an event overtakes its AddAsset)", r, negative=True)
     r = vlib.tlc_expect_violation("EventFlow", "EventFlow_race.cfg", workers=2)
     ctx.add_tlc("negative control / documentation: 'sent before the call' is weaker than 'dequeued' (SentThenCallApplies must fail)", r, negative=True)
 
